@@ -514,6 +514,12 @@ pub fn check_case(prop: &str, g: &GCtx, e: &RuleEntry, input: &str) -> Result<Ca
                     out.classes.push("insensitive_case");
                 }
                 out.nontrivial = !out.classes.is_empty();
+                if o.ok && st.max_rule_depth >= 100 {
+                    out.classes.push("accepted_nesting>=100");
+                }
+                if o.ok && st.max_rule_depth >= 1000 {
+                    out.classes.push("accepted_nesting>=1000");
+                }
             }
             out.classes.push(if o.ok { "accept" } else { "reject" });
         }
